@@ -250,8 +250,18 @@ pub fn gen_text(rng: &mut Rng, tier: Tier) -> Vec<u8> {
     let style = rng.below(8);
     let mut text = Vec::new();
     let big = n_lines > 400;
+    // Runs of minimal (one-byte) lines: there a line number and a byte offset advance in
+    // lock-step, the boundary shape for anything that bounds one by the other.
+    let blank_runs = rng.chance(1, 5);
+    let mut blank_left = 0usize;
     for i in 0..n_lines {
-        if big {
+        if blank_runs && blank_left == 0 && rng.chance(1, 12) {
+            blank_left = rng.urange(5, 80);
+        }
+        if blank_left > 0 {
+            blank_left -= 1;
+            // an empty body: the line is just its terminator
+        } else if big {
             // keep large texts cheap: short bodies
             let n = rng.urange(0, 3);
             for _ in 0..n {
